@@ -548,7 +548,7 @@ def peer_job(args: tuple[Any, ...]) -> dict[str, Any]:
         _os.environ["TZ"] = tz
         _time.tzset()
         try:
-            out_tz = peer_job(tuple(args[:5]))
+            out_tz = peer_job(tuple(args[:5]) + (None,) + tuple(args[6:]))
         finally:
             if old_tz is None:
                 _os.environ.pop("TZ", None)
@@ -560,6 +560,9 @@ def peer_job(args: tuple[Any, ...]) -> dict[str, Any]:
             v["clause"] += f" [process time zone {tz}]"
             v["tz"] = tz
         return out_tz
+    # the wall clock moves by this much before every frame of the device (a time request is answered with the reading at that moment,
+    # also long after the session was established, also after the clock was set back)
+    clock_step = float(args[6]) if len(args) > 6 and args[6] else 0.0
     _world.RECYCLE_RX[0] = recycle
     out: dict[str, Any] = {"evals": 1, "viol": []}
     try:
@@ -567,6 +570,23 @@ def peer_job(args: tuple[Any, ...]) -> dict[str, Any]:
     finally:
         _world.RECYCLE_RX[0] = False
     try:
+        out = _peer_run(w, probe, noise, seq, one_chunk, recycle, clock_step)
+    finally:
+        w.close()
+    for v in out["viol"]:
+        v.update(debug=bool(_world.DEFAULT_DEBUG[0]), recycle=recycle, clock_step=clock_step)
+        if clock_step:
+            v["key"] += f":clock{clock_step:+g}"
+            v["clause"] += f" [wall clock moves {clock_step:+g} s before every frame]"
+    return out
+
+
+def _peer_run(w: ConnWorld, probe: Probe, noise: bool, seq: tuple[str, ...], one_chunk: bool, recycle: bool, clock_step: float) -> dict[str, Any]:
+    from .. import world as _world
+
+    out: dict[str, Any] = {"evals": 1, "viol": []}
+    readings: list[int] = []
+    if True:
         n0 = len(w.sent_frames())
         # "GB": bytes that are no frame start (garbage behind well-formed frames): what stands in front of it is processed first
         garbage = b"\x7f\x7f\x7f" if not noise else b"\x00\x00\x01x"
@@ -579,14 +599,21 @@ def peer_job(args: tuple[Any, ...]) -> dict[str, Any]:
                 w.io_chunk(w.sock, blob[i : i + 3])
                 w.drain()
         elif one_chunk:
+            _world.WALL[0] += clock_step
+            readings = [int(_world.WALL[0]) for a in seq if a == "TR"]
             w.io_chunk(w.sock, b"".join(frames))
             w.drain()
         else:
-            for f in frames:
+            for a, f in zip(seq, frames):
                 if w.sock is None or w.sock.closed:
                     break
+                _world.WALL[0] += clock_step
+                if a == "TR":
+                    readings.append(int(_world.WALL[0]))
                 w.io_chunk(w.sock, f)
                 w.drain()
+        if recycle:
+            readings = [int(_world.WALL[0]) for a in seq if a == "TR"]
         exp: list[str] = []
         closed = False
         garbage_closed = False
@@ -607,12 +634,15 @@ def peer_job(args: tuple[Any, ...]) -> dict[str, Any]:
         if got != exp:
             out["viol"].append({"key": key, "clause": f"C12:peer:device sent {list(seq)}; client wrote {got}, expected {exp}", "noise": noise, "seq": list(seq), "one_chunk": one_chunk})
             return out
+        ri = 0
         for (t, pl), name in zip(sent, got):
             if name == "GetTimeResponse":
                 m = mk("GetTimeResponse")
                 m.ParseFromString(pl)
-                if m.epoch_seconds != FIXED_EPOCH:
-                    out["viol"].append({"key": key + ":time", "clause": f"C12:peer:time response carries {m.epoch_seconds}, the clock reads {FIXED_EPOCH}", "noise": noise, "seq": list(seq), "one_chunk": one_chunk})
+                want = readings[ri] if ri < len(readings) else FIXED_EPOCH
+                ri += 1
+                if m.epoch_seconds != want:
+                    out["viol"].append({"key": key + ":time", "clause": f"C12:peer:time response carries {m.epoch_seconds}, the clock reads {want}", "noise": noise, "seq": list(seq), "one_chunk": one_chunk})
         if garbage_closed:
             stops = [e for _, e, _ in w.stops]
             if w.conn.connection_state.name != "CLOSED" or stops != [False]:
@@ -636,8 +666,6 @@ def peer_job(args: tuple[Any, ...]) -> dict[str, Any]:
         gotp = [type(m).__name__ for m in probe.calls]
         if gotp != exp_probe:
             out["viol"].append({"key": key + ":order", "clause": f"C12:order:subscriber saw {gotp}, expected {exp_probe}", "noise": noise, "seq": list(seq), "one_chunk": one_chunk})
-    finally:
-        w.close()
     return out
 
 
@@ -662,6 +690,8 @@ def run(tier: str, seed: int) -> Result:
     jobs_c += [(noise, s, False, False, True) for noise in (False, True) for s in seqs if len(s) <= 2]
     jobs_c += [(noise, s + ("GB",), oc) for noise in (False, True) for s in seqs if len(s) <= 2 and "DR" not in s for oc in (False, True)]
     jobs_c += [(noise, s, True, False, False, tz) for noise in (False, True) for s in seqs if len(s) <= 2 and "TR" in s for tz in ("XYZ5", "ABC-9:30")]
+    jobs_c += [(noise, s, oc, False, False, None, step) for noise in (False, True) for s in seqs if len(s) <= 3 and "TR" in s
+               for oc in (False, True) for step in (3600.5, -86400.0)]
     jobs_b2 = [(3, p, 25) for p in range(25)]
     jobs_c2: list[tuple[bool, bool, tuple[str, ...], bool]] = []
     for noise in (False, True):
@@ -767,7 +797,7 @@ def replay(rp: dict[str, Any]) -> bool:
         print("->", [v["clause"] for v in bad] or "holds")
         return not bad
     if "seq" in d:
-        o = peer_job((d["noise"], tuple(d["seq"]), d["one_chunk"], False, False, d.get("tz")))
+        o = peer_job((d["noise"], tuple(d["seq"]), d["one_chunk"], d.get("debug", False), d.get("recycle", False), d.get("tz"), d.get("clock_step", 0.0)))
         print("->", o["viol"])
         return not o["viol"]
     if "type" in d:
